@@ -165,5 +165,5 @@ SUBS = [
         rule="dt from {1/250,1/365,1/12,1/52,0.1,0.01,1/252,0.004,1/3} or a drawn float, maturity = k*dt (float product), "
              "k/round(1/dt) or a non-integral multiple, k<=60; every primary, option type, forward start, variance swap and "
              "a user derivative with two underliers of different dt. Non-trivial: non-integral ratio or k != 20.",
-        strategy=lambda tier: grid_case(), examples={"quick": 3000, "thorough": 30000}),
+        strategy=lambda tier: grid_case(), examples={"quick": 3000, "thorough": 30000}, fuzz={"thorough": 60.0}),
 ]
